@@ -48,7 +48,7 @@ def universe_spec() -> dict:
         elif len(deps) == 1:
             sh = {'ref': deps[0], 'fresh': False}
         else:
-            sh = {'list': [{'ref': deps[0], 'fresh': False}, {'dict': {'k': {'ref': deps[1], 'fresh': True}}}]}
+            sh = {'list': [{'ref': deps[0], 'fresh': False}, {'dict': {'zeta': {'ref': deps[1], 'fresh': True}, 'alpha': {'s': 1}, 'mid': {'s': None}}}]}
         nodes.append({'id': i, 'type': t, 'name': f'u{i}', 'mode': mode, 'read': read, 'payload': None, 'deps': sh})
     return {'nodes': nodes, 'requested': [], 'lab': {}}
 
@@ -107,7 +107,8 @@ class Session:
             rb = ControlledBackend(Control(Chooser(schedule)))
         else:
             rb = backend
-        lab = labtech.Lab(storage=self.storage if self.kind != 'local' else os.path.join(self.dir, 'store'),
+        # same Storage object as the session's Lab (what a user who keeps one storage/Lab around has)
+        lab = labtech.Lab(storage=self.lab._storage if self.kind != 'none' else None,
                           runner_backend=rb, context=context, notebook=False, max_workers=2)
         try:
             res = lab.run_tasks(tasks, bust_cache=bust, disable_progress=True, disable_top=True)
